@@ -10,8 +10,10 @@
 #include <iterator>
 #include <list>
 #include <map>
+#include <memory>
 #include <set>
 #include <string>
+#include <type_traits>
 #include <utility>
 #include <vector>
 
@@ -213,6 +215,77 @@ struct input_once
   iterator end() const { return iterator{&v, v.size()}; }
 };
 
+// bidirectional iterators, no size()
+struct bidi_unsized
+{
+  using value_type = int;
+  using iterator = std::list<int>::const_iterator;
+  using const_iterator = iterator;
+  std::list<int> v;
+  iterator begin() const { return v.begin(); }
+  iterator end() const { return v.end(); }
+};
+// A really single-pass range (like fcppt::iterator::make_range over std::istream_iterator): all iterators share one
+// cursor, begin() reads the first element, ++ advances the shared cursor and caches the next element.  Traversing it
+// a second time (a second begin(), or advancing a stale copy of an iterator) yields nothing / the wrong elements,
+// and is recorded in `reread` so that the harness can report <fn>:source_read_twice.
+struct sp_state
+{
+  std::vector<int> data;
+  std::size_t cursor = 0;
+  unsigned begins = 0;
+  bool reread = false;
+};
+struct single_pass
+{
+  using value_type = int;
+  std::shared_ptr<sp_state> st;
+  struct iterator
+  {
+    using iterator_category = std::input_iterator_tag;
+    using value_type = int;
+    using difference_type = std::ptrdiff_t;
+    using pointer = int const *;
+    using reference = int const &;
+    sp_state *st;
+    std::size_t pos; // cursor value this iterator was positioned at
+    bool at_end;
+    int cached;
+    reference operator*() const { return cached; }
+    iterator &operator++()
+    {
+      if (at_end)
+        return *this;
+      if (pos != st->cursor)
+        st->reread = true; // a stale copy is advanced: somebody else has consumed the range already
+      ++st->cursor;
+      pos = st->cursor;
+      if (st->cursor < st->data.size())
+        cached = st->data[st->cursor];
+      else
+        at_end = true;
+      return *this;
+    }
+    iterator operator++(int)
+    {
+      iterator t = *this;
+      ++*this;
+      return t;
+    }
+    bool operator==(iterator const &o) const { return at_end == o.at_end; }
+    bool operator!=(iterator const &o) const { return at_end != o.at_end; }
+  };
+  using const_iterator = iterator;
+  iterator begin() const
+  {
+    if (st->begins++ > 0)
+      st->reread = true;
+    bool const e = st->cursor >= st->data.size();
+    return iterator{st.get(), st->cursor, e, e ? 0 : st->data[st->cursor]};
+  }
+  iterator end() const { return iterator{st.get(), 0, true, 0}; }
+};
+
 // ---------------------------------------------------------------- container kinds
 // make(s): the container built from the sequence; order(s): the order in which its elements are visited
 struct k_vector
@@ -283,6 +356,32 @@ struct k_input_once
   static type make(seq const &s) { return type{std::vector<int>(s.begin(), s.end())}; }
   static seq order(seq const &s) { return s; }
 };
+struct k_bidi_unsized
+{
+  using type = bidi_unsized;
+  static constexpr char const *name = "bidi_unsized";
+  static type make(seq const &s) { return type{std::list<int>(s.begin(), s.end())}; }
+  static seq order(seq const &s) { return s; }
+};
+struct k_single_pass
+{
+  using type = single_pass;
+  static constexpr char const *name = "single_pass";
+  static type make(seq const &s)
+  {
+    auto st = std::make_shared<sp_state>();
+    st->data.assign(s.begin(), s.end());
+    return type{st};
+  }
+  static seq order(seq const &s) { return s; }
+};
+// after a call that consumed `src`: a single-pass source must have been traversed at most once
+template <class SK, class Src> inline void consumed_once(Src const &src, std::string const &name)
+{
+  if constexpr (std::is_same_v<SK, k_single_pass>)
+    VRT_CHECK(!src.st->reread, name + ":source_read_twice", "the single-pass source was traversed more than once (%u begin() calls, cursor %zu of %zu)",
+              src.st->begins, src.st->cursor, src.st->data.size());
+}
 // string of the characters 'a'+x
 struct k_string
 {
@@ -357,4 +456,5 @@ void register_algorithm2_shards();
 void register_container_shards();
 void register_array_tuple_shards();
 void register_hetero_shards();
+void register_callback_shards();
 }
